@@ -191,6 +191,7 @@ func H_Equal() {
 	vx.Assert(!panicked, "C06/equal-no-panic")
 	vx.Assert(!panicked, "C19/equal-no-panic")
 	if panicked {
+		vx.Note("panic", []byte(vx.PanicMsg()))
 		vx.Reach("equal/panicked")
 		return
 	}
